@@ -317,10 +317,19 @@ QTests == Query(last' = [op |-> "tests",
                          equal_conj        |-> TestEqual(mods, leg, ConjLeg(leg)),
                          contractible_flip |-> TestContractible(mods, leg, FlipLeg(mods, leg))])
 
+\* projecting every index away leaves a leg without blocks (ind_len 0); it still sorts and converts permutations
+QProjectNone == Query(/\ IndLen(leg) > 0
+                      /\ LET mask == [i \in 1..IndLen(leg) |-> FALSE]
+                             r == ProjectLeg(leg, mask)
+                         IN last' = [op |-> "project_none", mask |-> mask, map_qind |-> r.map,
+                                     sizes |-> r.leg.sizes, charges |-> r.leg.charges, qconj |-> r.leg.qconj,
+                                     perm_flat |-> PermFlatFromPermQind(r.leg, <<>>),
+                                     sort_perm |-> SortLeg(r.leg, TRUE).perm, sorted_sizes |-> SortLeg(r.leg, TRUE).leg.sizes])
+
 CNext == \/ CStart
          \/ \E c \in {"init", "from_qind", "from_qflat"} : CNew(c)
          \/ DoSort \/ DoBunch \/ DoProject \/ DoExtend \/ DoConj \/ DoFlip
-         \/ QGetQindex \/ QPerm \/ QTests
+         \/ QGetQindex \/ QPerm \/ QTests \/ QProjectNone
 
 CSpec == CInit /\ [][CNext]_cvars
 
